@@ -333,6 +333,68 @@ func analyseResourceClose(file string) string {
 	return "RUnknown"
 }
 
+// analyseWalkerSizeCheck: inside ZipWithContextAndLimitsAndExclusionPatterns, the count returned by
+// safeio.CopyDataWithContext (n, err := ...) is compared with info.Size() by != in the condition of an if statement whose
+// body contains a return.
+func analyseWalkerSizeCheck(file string) bool {
+	af, err := parser.ParseFile(fset, file, nil, parser.SkipObjectResolution)
+	if err != nil {
+		return false
+	}
+	found := false
+	for _, d := range af.Decls {
+		fd, ok := d.(*ast.FuncDecl)
+		if !ok || fd.Name.Name != "ZipWithContextAndLimitsAndExclusionPatterns" || fd.Body == nil {
+			continue
+		}
+		copied := ""
+		ast.Inspect(fd.Body, func(x ast.Node) bool {
+			if as, ok := x.(*ast.AssignStmt); ok && len(as.Rhs) == 1 && len(as.Lhs) == 2 {
+				if c, ok := as.Rhs[0].(*ast.CallExpr); ok {
+					if sel, ok := c.Fun.(*ast.SelectorExpr); ok && sel.Sel.Name == "CopyDataWithContext" {
+						if id, ok := as.Lhs[0].(*ast.Ident); ok {
+							copied = id.Name
+						}
+					}
+				}
+			}
+			is, ok := x.(*ast.IfStmt)
+			if !ok || copied == "" {
+				return true
+			}
+			hasSizeCmp := false
+			ast.Inspect(is.Cond, func(y ast.Node) bool {
+				be, ok := y.(*ast.BinaryExpr)
+				if !ok || be.Op != token.NEQ {
+					return true
+				}
+				isSize := func(e ast.Expr) bool {
+					c, ok := e.(*ast.CallExpr)
+					if !ok {
+						return false
+					}
+					sel, ok := c.Fun.(*ast.SelectorExpr)
+					return ok && sel.Sel.Name == "Size"
+				}
+				isN := func(e ast.Expr) bool { id, ok := e.(*ast.Ident); return ok && id.Name == copied }
+				if (isSize(be.X) && isN(be.Y)) || (isSize(be.Y) && isN(be.X)) {
+					hasSizeCmp = true
+				}
+				return true
+			})
+			if hasSizeCmp {
+				for _, st := range is.Body.List {
+					if _, ok := st.(*ast.ReturnStmt); ok {
+						found = true
+					}
+				}
+			}
+			return true
+		})
+	}
+	return found
+}
+
 // analyseZipExtensions: the elements of `ZipFileExtensions = []string{...}` with identifiers resolved through the
 // string constants of the same file.  Anything else is an error.
 func analyseZipExtensions(file string) []string {
@@ -466,6 +528,7 @@ func main() {
 	vfsCloseShape := analyseVFSClose(files)
 	resCloseShape := analyseResourceClose(filepath.Join(repo, "utils", "resource", "resource.go"))
 	zipExts := analyseZipExtensions(filepath.Join(dir, "zip.go"))
+	walkerChecksSize := analyseWalkerSizeCheck(filepath.Join(dir, "zip.go"))
 	var b strings.Builder
 	b.WriteString("(* GENERATED by translator-c07/cmd/guards2coq from utils/filesystem/*.go — do not edit.\n")
 	b.WriteString("   One abstract statement list per method of *VFS (see GuardTypes.v). *)\n")
@@ -487,6 +550,8 @@ func main() {
 	fmt.Fprintf(&b, "Definition vfs_close_shape : vshape := %s.\n", vfsCloseShape)
 	b.WriteString("(* resource.go closeableResource.Close: RCloseThenFlag = every return before `c.closed = true` returns the non-nil\n   error of the underlying Close, and the flag assignment precedes the final `return nil` *)\n")
 	fmt.Fprintf(&b, "Definition resource_close_shape : rshape := %s.\n", resCloseShape)
+	b.WriteString("(* zip.go, walker of ZipWithContextAndLimitsAndExclusionPatterns: an `if` whose condition compares info.Size() with the\n   copied byte count by != and whose body returns an error *)\n")
+	fmt.Fprintf(&b, "Definition zip_walker_checks_copied_size : bool := %v.\n", walkerChecksSize)
 	b.WriteString("(* zip.go ZipFileExtensions (string constants resolved), as byte lists, in source order *)\n")
 	b.WriteString("Definition zip_extensions_gen : list (list Z) := [\n")
 	for i, e := range zipExts {
